@@ -223,7 +223,28 @@ class Executor(ExprMixin, StmtMixin, LoopMixin):
             return st.pyheap[pk]
         ft = cs.fields[name]
         arr = self.field_array(st, cs.name, name)
-        return Val(ft, z3.Select(arr, lift(recv)))
+        v = Val(ft, z3.Select(arr, lift(recv)))
+        self.note_ref(st, v)
+        return v
+
+    def note_ref(self, st, v: Val, cond=None):
+        """Heap well-formedness: a reference read out of an object's field / a container exists, i.e. is allocated at the
+        time of the read (no state of a real execution holds a reference to an object that is yet to be created)."""
+        if v.is_py or self.qstack:
+            return
+        t = v.ty
+        if isinstance(t, T.Ref):
+            f = self.is_allocated(st, v.term)
+        elif isinstance(t, T.Opt) and isinstance(t.inner, T.Ref):
+            s_ = t.sort()
+            f = z3.Implies(s_.is_some(v.term), self.is_allocated(st, s_.val(v.term)))
+        else:
+            return
+        key = ("alloc", v.term.get_id(), st.alloc.get_id() if st.alloc is not None else 0)
+        if key in st.ghost:
+            return
+        st.ghost[key] = (v.term, len(st.pc))
+        st.assume(f if cond is None else z3.Implies(cond, f))
 
     def write_field(self, st, recv: Val, name: str, v: Val, node=None):
         cs = self.class_of(recv.ty)
@@ -660,9 +681,20 @@ class Executor(ExprMixin, StmtMixin, LoopMixin):
                     st.assume(z3.Not(cnd))
         # havoc what the callee may modify
         post = cst.copy()
+        # a call under short-circuit / conditional-expression guards (`a and f(x)`, `f(x) if c else y`) only happens
+        # when the guards hold: its effects are conditional on them
+        active = [f for f in st.pc if getattr(f, "_is_guard", False)]
+        heap_before, alloc_before = dict(st.heap), st.alloc
         for m in cc.modifies:
             if "." in m:
                 cn, fn = m.split(".")
+                if cn in cc.params and isinstance(cc.params[cn], T.Ref):
+                    # "<param>.field": only THAT object's field may change (checked when the callee is verified)
+                    ocls = cc.params[cn].cls
+                    arr = self.field_array(st, ocls, fn)
+                    ft = api.CLASSES[ocls].fields[fn]
+                    st.heap[(ocls, fn)] = z3.Store(arr, lift(bound[cn]), fresh(ft, f"{fn}_post"))
+                    continue
                 arr = self.field_array(st, cn, fn)
                 st.heap[(cn, fn)] = z3.Const(fresh_name(f"H_{cn}_{fn}"), arr.sort())
             else:
@@ -687,10 +719,23 @@ class Executor(ExprMixin, StmtMixin, LoopMixin):
         post.pc = st.pc
         for nm, e in cc.ensures.items():
             st.assume(z3bool(callee.clause(e, post)))
+        guard = z3.And(*active) if active else None
         # write back container parameters that were modified (value semantics)
         for m in cc.modifies:
             if "." not in m:
-                self.writeback_arg(m, post.env[m], src, args, kwargs, node, st, implicit)
+                nv = post.env[m]
+                if guard is not None:
+                    nv = ops.ite(guard, nv, coerce(bound[m], nv.ty))
+                self.writeback_arg(m, nv, src, args, kwargs, node, st, implicit)
+        if guard is not None:
+            for k, arr in list(st.heap.items()):
+                b = heap_before.get(k)
+                if b is None:
+                    b = z3.Const(f"H0_{k[0]}_{k[1]}", arr.sort())
+                if not z3.eq(arr, b):
+                    st.heap[k] = z3.If(guard, arr, b)
+            if alloc_before is not None and st.alloc is not None and not z3.eq(st.alloc, alloc_before):
+                st.alloc = z3.If(guard, st.alloc, alloc_before)
         self.assumptions_used |= {"contract:" + cc.key}
         return res
 
